@@ -335,7 +335,9 @@ def _mk(det, rec):
 
 def _feed(d, chunk, flush=False):
     try:
-        if flush:
+        if flush and len(chunk) % 2:
+            d.flush(chunk)                  # the documented shorthand for process(chunk, flush=True)
+        elif flush:
             d.process(chunk, flush=True)
         else:
             d.process(chunk)
